@@ -142,7 +142,6 @@ Proof. split; [vm_compute; reflexivity|vm_compute; discriminate]. Qed.
 
 (** * one pending block of an honest sender *)
 Lemma single_block_life : forall hs sh c p now st u,
-  c_noval c = false ->
   st_pend st = [pd_of hs sh u] -> ub_wf u -> ub_honest hs sh p u ->
   tick_raw c p now st =
   if ub_done hs sh p u
@@ -151,8 +150,8 @@ Lemma single_block_life : forall hs sh c p now st u,
        then Ok (mkSt (st_filter st) [] (st_reqs st) (st_height st), ureq (st_height st) u)
        else Ok (mkSt (st_filter st) [pd_of hs sh (ub_upd hs sh p u)] (st_reqs st) (st_height st), []).
 Proof.
-  intros hs sh c p now st u NV E W H.
-  rewrite (tick_units hs sh c p now st [u] NV E (Forall_cons _ W (Forall_nil _)) (Forall_cons _ H (Forall_nil _))).
+  intros hs sh c p now st u E W H.
+  rewrite (tick_units hs sh c p now st [u] E (Forall_cons _ W (Forall_nil _)) (Forall_cons _ H (Forall_nil _))).
   simpl. destruct (ub_done hs sh p u); [reflexivity|].
   destruct (c_timeout c <=? Z.quot (now - ub_ts u) 1000000); simpl; [rewrite app_nil_r|]; reflexivity.
 Qed.
